@@ -351,6 +351,67 @@ def Sorted (c : Cfg) : Prop :=
   c.blocks.Pairwise (fun a b => a.index < b.index) ∧ c.edges.Pairwise (fun a b => edgeLt a b = true)
 
 -- ------------------------------------------------------------------------------------------------
+-- histories: the operations as data, over any number of graphs (the driver and `ops_wf` share `run`)
+
+inductive EditOp where
+  | newBlock (g : Nat)
+  | uedge (g h t : Nat)
+  | cedge (g h t : Nat) (guard : Expr)
+  | entry (g i : Nat)
+  | exit (g i : Nat)
+  | merge (g : Nat)
+  | append (g h : Nat)
+  | insert (g h : Nat)
+  | op (g b : Nat) (o : Op)
+  | bappend (g b h j : Nat)
+  | rmins (g b idx : Nat)
+  | temp (g bits : Nat)
+  deriving Repr
+
+/-- what a call returns besides the new graph -/
+inductive Outcome where
+  | unit
+  | index (i : Nat)
+  | pair (entry exit : Nat)
+  | scalar (s : Scalar)
+  deriving Repr
+
+abbrev Graphs := Nat → Cfg
+
+def Graphs.set (s : Graphs) (g : Nat) (c : Cfg) : Graphs := fun i => if i = g then c else s i
+
+/-- the graph the operation edits -/
+def EditOp.target : EditOp → Nat
+  | .newBlock g | .uedge g .. | .cedge g .. | .entry g _ | .exit g _ | .merge g | .append g _ | .insert g _
+  | .op g .. | .bappend g .. | .rmins g .. | .temp g _ => g
+
+/-- the call on the graphs, as a `Step` on the target graph -/
+def EditOp.step (s : Graphs) : EditOp → Step Outcome
+  | .newBlock g => let r := CfgEdit.newBlock (s g); ⟨r.cfg, r.res.map .index⟩
+  | .uedge g h t => let r := unconditionalEdge (s g) h t; ⟨r.cfg, r.res.map (fun _ => .unit)⟩
+  | .cedge g h t e => let r := conditionalEdge (s g) h t e; ⟨r.cfg, r.res.map (fun _ => .unit)⟩
+  | .entry g i => let r := setEntry (s g) i; ⟨r.cfg, r.res.map (fun _ => .unit)⟩
+  | .exit g i => let r := setExit (s g) i; ⟨r.cfg, r.res.map (fun _ => .unit)⟩
+  | .merge g => let r := CfgEdit.merge (s g); ⟨r.cfg, r.res.map (fun _ => .unit)⟩
+  | .append g h => let r := CfgEdit.append (s g) (s h); ⟨r.cfg, r.res.map (fun _ => .unit)⟩
+  | .insert g h => let r := CfgEdit.insert (s g) (s h); ⟨r.cfg, r.res.map (fun p => .pair p.1 p.2)⟩
+  | .op g b o => let r := blockOp (s g) b o; ⟨r.cfg, r.res.map (fun _ => .unit)⟩
+  | .bappend g b h j => let r := blockAppendOp (s g) b (s h) j; ⟨r.cfg, r.res.map (fun _ => .unit)⟩
+  | .rmins g b i => let r := removeInstruction (s g) b i; ⟨r.cfg, r.res.map (fun _ => .unit)⟩
+  | .temp g n => let r := CfgEdit.temp (s g) n; ⟨r.cfg, r.res.map .scalar⟩
+
+/-- one operation of a history; a panicking call leaves the graphs as they were (the harness restores
+    its snapshot: the state after an unwinding `&mut self` call is unspecified) -/
+def run (s : Graphs) (o : EditOp) : Graphs × Res Outcome :=
+  let r := o.step s
+  match r.res with
+  | .panic => (s, .panic)
+  | res => (s.set o.target r.cfg, res)
+
+/-- the graphs after a history that starts from `ControlFlowGraph::new()` everywhere -/
+def runAll (ops : List EditOp) : Graphs := ops.foldl (fun s o => (run s o).1) (fun _ => new)
+
+-- ------------------------------------------------------------------------------------------------
 -- the language of a graph (specification side of "merging / appending keep the meaning")
 
 /-- what a path spells: operations of the blocks it runs through, guards of the conditional edges it takes
